@@ -28,6 +28,37 @@ STRUCTURAL_READERS = {"__eq__", "__hash__", "__repr__", "__str__", "_to_string"}
 REFLECTIVE = {"setattr", "delattr", "vars", "globals", "locals", "exec", "eval"}
 
 
+FLAG_OWNERS = {
+    "_is_fully_reduced": {"__init__", "_take_reduction_step", "_fully_reduce"},
+    "_evaluation_failed": {"__init__", "_consolidate_expression_lacking_variables"},
+}
+
+
+def _is_flag_owner(prog, fname, attr, _seen=None):
+    """fname is one of the flag's protocol functions, or a helper that only they call."""
+    owners = FLAG_OWNERS[attr]
+    if fname in owners:
+        return True
+    _seen = _seen or set()
+    if fname in _seen:
+        return False
+    _seen.add(fname)
+    cache = prog.__dict__.setdefault("_callers_by_name", None)
+    if cache is None:
+        cache = {}
+        for mod in prog.modules.values():
+            fns = list(mod.funcs.values()) + [f for ci in mod.classes.values() for f in ci.methods.values()]
+            for fd in fns:
+                for n in ast.walk(fd.node):
+                    if isinstance(n, ast.Call):
+                        callee = n.func.attr if isinstance(n.func, ast.Attribute) else (n.func.id if isinstance(n.func, ast.Name) else None)
+                        if callee:
+                            cache.setdefault(callee, set()).add(fd.node.name)
+        prog.__dict__["_callers_by_name"] = cache
+    callers = cache.get(fname, set())
+    return bool(callers) and all(_is_flag_owner(prog, c, attr, _seen) for c in callers)
+
+
 def is_fresh_container_expr(node):
     """list / dict / set displays, comprehensions, list()/dict()/set() calls, slices and
     concatenations thereof: always a newly allocated container."""
@@ -143,6 +174,10 @@ def analyse(prog):
                         recv_self = isinstance(t.value, ast.Name) and t.value.id == "self"
                         if fn.name == "__init__" and recv_self:
                             sites.append(Site("F1-init-own-field", where, True, f"self.{t.attr} = ...", "constructor initialises its own object"))
+                        elif t.attr in FLAG_OWNERS and not _is_flag_owner(prog, fn.name, t.attr):
+                            sites.append(Site("F5-flag-written-outside-its-protocol", where, False, f"{ast.unparse(t)} = ...",
+                                              f"{t.attr} is a *sound* flag: the proof that it is only ever set when it is true covers its writers "
+                                              f"{sorted(FLAG_OWNERS[t.attr])} (and helpers only they call); a new writer has no such proof"))
                         elif t.attr in MEMO_FIELDS:
                             sites.append(Site("F1-memo-field", where, True, f".{t.attr} = ...", MEMO_FIELDS[t.attr]))
                         else:
